@@ -164,6 +164,73 @@ func execSearch(args []string) string {
 			outs = append(outs, fmt.Sprintf("best=%d:%s|nodes=%d|polls=%d|%s", uint32(r.best)&0xFFFF, r.best.String(), r.nodes, r.polls, strings.Join(r.lines, "/")))
 		}
 		return "out=" + strings.Join(outs, ";")
+	case "deep":
+		// deep <pos> <nmoves> <moves…> <depth>: Go-only search; answer and PVs replayed with the engine's own legal move generator
+		nm, _ := strconv.Atoi(args[2])
+		moves := args[3 : 3+nm]
+		depth, _ := strconv.Atoi(args[3+nm])
+		transpositiontable.Reset()
+		s, ok := setupSearch(args[1], moves)
+		if !ok {
+			return "res=badgame"
+		}
+		root := s.Pos
+		r := runSearch(s, depth, -1)
+		if r.timedOut || r.panicked {
+			return "p.terminated=" + b2s(!r.timedOut) + " p.nopanic=" + b2s(!r.panicked)
+		}
+		find := func(p *position.Position, u string) (*position.Position, bool) {
+			for _, lm := range legalMoves(p) {
+				if lm.m.String() == u {
+					q := lm.pos
+					return &q, true
+				}
+			}
+			return nil, false
+		}
+		lms := legalMoves(&root)
+		bestLegal := false
+		if len(lms) == 0 {
+			bestLegal = r.best == move.NullMove
+		} else {
+			_, bestLegal = find(&root, r.best.String())
+		}
+		pvLegal := true
+		for _, pv := range r.pvs {
+			p := root
+			for _, u := range strings.Split(pv, ",") {
+				if u == "" {
+					continue
+				}
+				q, ok := find(&p, u)
+				if !ok {
+					pvLegal = false
+					break
+				}
+				p = *q
+			}
+		}
+		bestFirst := true
+		if len(r.pvs) > 0 {
+			last := strings.Split(r.pvs[len(r.pvs)-1], ",")
+			if last[0] != "" {
+				bestFirst = last[0] == r.best.String()
+			}
+		}
+		mateOk := true
+		hasMate := false
+		for _, lm := range lms {
+			q := lm.pos
+			if q.IsInCheck(q.SideToMove) && len(legalMoves(&q)) == 0 {
+				hasMate = true
+			}
+		}
+		if hasMate {
+			q, ok := find(&root, r.best.String())
+			mateOk = ok && q.IsInCheck(q.SideToMove) && len(legalMoves(q)) == 0
+		}
+		return fmt.Sprintf("p.terminated=1 p.nopanic=1 p.bestlegal=%s p.pvlegal=%s p.bestfirst=%s p.mateok=%s p.depthok=%s",
+			b2s(bestLegal), b2s(pvLegal), b2s(bestFirst), b2s(mateOk), b2s(r.maxDepth <= depth))
 	case "judge":
 		// the facts are in the operation itself (they were produced by the Go run that generated it); constant expectations
 		return "bestlegal=1 pvlegal=1 bestfirst=1 mateok=1"
@@ -325,5 +392,44 @@ func searchOps(o *Out, seed uint64, n int, tier string, corpus string) {
 			o.Run(j)
 		}
 		o.Stat("search_sequences")
+	}
+}
+
+// deepOps: Go-only searches to depth 4..5 over corpus and generated games.
+func deepOps(o *Out, seed uint64, n int, corpus string) {
+	rng := NewRng(seed)
+	ps := &posSource{rng: rng, corpus: readLines(corpus)}
+	count := 0
+	for count < n {
+		start := "startpos"
+		p := *position.New()
+		switch rng.Intn(4) {
+		case 0:
+			fen := ps.corpus[rng.Intn(len(ps.corpus))]
+			q, err := position.NewFromFen(fen)
+			if err != nil || q.IsInCheck(types.SwitchColor(q.SideToMove)) {
+				continue
+			}
+			p, start = *q, hexOf(fen)
+		case 1:
+			fen := ps.randomMaterial()
+			q, err := position.NewFromFen(fen)
+			if err != nil || !checkShape(q) || q.IsInCheck(types.SwitchColor(q.SideToMove)) {
+				continue
+			}
+			p, start = *q, hexOf(fen)
+		}
+		var last []string
+		ps.playout(start, p, rng.Intn(70), func(q *position.Position, st string, mv []string) bool {
+			last = append([]string{}, mv...)
+			return true
+		})
+		depth := 4
+		if rng.Intn(5) == 0 {
+			depth = 5
+		}
+		o.Run(strings.Join(strings.Fields(fmt.Sprintf("deep %s %d %s %d", start, len(last), strings.Join(last, " "), depth)), " "))
+		o.Stat(fmt.Sprintf("deep_depth_%d", depth))
+		count++
 	}
 }
